@@ -86,6 +86,9 @@ fn clamp(v: &mut Value) {
 fn emit(out: &mut dyn Write, e: &Value) {
     let mut e = e.clone();
     clamp(&mut e);
+    if cfg!(miri) && e["op"] == "EndRun" {
+        e["par"] = json!(1); // allocation counts are meaningless under Miri (no alignment filter)
+    }
     let e = &e;
     serde_json::to_writer(&mut *out, e).unwrap();
     out.write_all(b"\n").unwrap();
@@ -100,7 +103,7 @@ fn run_random<K: KeyT, V: ValT>(a: &Args) {
     emit(&mut out, &header::<K>(a, json!({"mode":"random"})));
     for run in 0..runs {
         let mut w: World<K, V> = World::new(2, a.num("content-limit", 96) as usize);
-        w.nolive = a.flag("par");
+        w.nolive = a.flag("par") || cfg!(miri);
         let hm = if a.m.contains_key("hm") { a.num("hm", 0) as u8 } else { (run % 3) as u8 };
         let nkeys = if a.m.contains_key("nkeys") { a.num("nkeys", 40) as u32 } else { [12u32, 24, 40, 60][(run / 3 % 4) as usize] };
         let mut g = gen::Gen {
@@ -123,7 +126,7 @@ fn run_random<K: KeyT, V: ValT>(a: &Args) {
         }
         let live = live_ids();
         let mut end = json!({"op":"EndRun","live_ids": live, "live_allocs": live_tables()});
-        if a.flag("par") {
+        if a.flag("par") || cfg!(miri) {
             end["par"] = json!(1);
         }
         emit(&mut out, &end);
